@@ -10,8 +10,8 @@ from __future__ import annotations
 
 import ast
 
-from ..astutil import ancestors, calls_in, dotted, enclosing_stmt, handler_catches, kwarg, src, walk_local
-from ..cfg import cfg_of
+from ..astutil import ancestors, calls_in, const_value, dotted, enclosing_stmt, handler_catches, kwarg, src, walk_local
+from ..cfg import cfg_of, deref_at
 from ..loader import AnalysisError
 from ..terms import Evaluator, alts, contains, show, strip_sites
 from .common import func_label, loc
@@ -465,18 +465,65 @@ def r6_custom_backends(ctx):
     ok = lb is not None and "f'..backends.{name}'" in src(lb.node, 800) and any(isinstance(r, ast.Return) and any(isinstance(a, ast.Attribute) and a.attr == 'Client' for a in ast.walk(r)) for r in ast.walk(lb.node))
     ctx.check(ok, 'C19.R6', f'{func_label(lb)}|load-backend', loc(lb, lb.node), 'load_backend imports replicat.backends.<name> and returns its Client', 'load_backend changed how the adapter module / Client is located')
     # the three consumers of the constructor signature agree
-    fns = [corpus.module('config').functions.get('config_for_backend'), corpus.module('cli').functions.get('parser_for_backend'), corpus.module('main').functions.get('_instantiate_backend')]
+    # every function that reads the constructor signature (found by the inspect.signature call, wherever it lives)
+    fns = []
+    for mname in ('config', 'cli', 'main'):
+        for f in corpus.module(mname).all_functions:
+            if any((dotted(c.func) or '') in ('inspect.signature', 'signature') for c in calls_in(f.node)):
+                fns.append(f)
+    ctx.floor('C19.R6', 'consumers of the adapter constructor signature (config class, CLI parser, instantiation)', len(fns), 3)
     for f in fns:
-        if f is None:
-            raise AnalysisError('C19.R6: signature consumer missing')
         ctx.analysed(f)
-        s = src(f.node, 3000)
-        ok = 'inspect.signature(' in s and _kwonly_selected(f)
-        ctx.check(ok, 'C19.R6', f'{func_label(f)}|keyword-only-parameters', loc(f, f.node), f'{f.name}: backend options are exactly the keyword-only parameters of the Client constructor', f'{f.name}: selects another parameter kind than the other two consumers')
-    pf = fns[1]
-    ctx.check(".replace('_', '-')" in src(pf.node, 3000), 'C19.R6', f'{func_label(pf)}|cli-name-mapping', loc(pf, pf.node), 'CLI option name = parameter name with _ -> -', 'CLI option naming changed')
+        ok = _kwonly_selected(f)
+        ctx.check(ok, 'C19.R6', f'{func_label(f)}|keyword-only-parameters', loc(f, f.node), f'{f.name}: backend options are exactly the keyword-only parameters of the Client constructor', f'{f.name}: selects another parameter kind than the other consumers')
+    pfs = [f for f in fns if any(isinstance(c.func, ast.Attribute) and c.func.attr == 'add_argument' for c in calls_in(f.node))]
+    ctx.floor('C19.R6', 'signature consumer that builds the CLI parser', len(pfs))
+    pf = pfs[0]
+    # the option string handed to add_argument is built from the parameter name with _ -> -
+    adds = [c for c in calls_in(pf.node) if isinstance(c.func, ast.Attribute) and c.func.attr == 'add_argument' and c.args]
+    ctx.floor('C19.R6', 'add_argument calls of parser_for_backend', len(adds))
+
+    def _hyphenated(fn_node, e, depth=0):
+        """sub-expression `<x>.replace('_', '-')` that feeds e (names followed to their definitions)"""
+        if depth > 4:
+            return None
+        for n in ast.walk(e):
+            if isinstance(n, ast.Call) and isinstance(n.func, ast.Attribute) and n.func.attr == 'replace' and [const_value(a) for a in n.args] == ['_', '-']:
+                return n
+        for n in ast.walk(e):
+            if isinstance(n, ast.Name) and isinstance(n.ctx, ast.Load):
+                d = deref_at(fn_node, n)
+                if d is not n:
+                    r = _hyphenated(fn_node, d, depth + 1)
+                    if r is not None:
+                        return r
+        return None
+
+    def _is_param_name(fn_node, e):
+        """e is the name yielded by iterating <signature>.parameters(.items()) / a dataclass field's .name"""
+        d = deref_at(fn_node, e) if isinstance(e, ast.Name) else e
+        if isinstance(d, ast.Attribute) and d.attr == 'name' and isinstance(d.value, ast.Name):
+            return any(isinstance(l, (ast.For, ast.comprehension)) and any(isinstance(t, ast.Name) and t.id == d.value.id for t in ast.walk(l.target)) and any(isinstance(c, ast.Call) and (dotted(c.func) or '').endswith('fields') for c in ast.walk(l.iter)) for l in ast.walk(fn_node))
+        if isinstance(d, ast.Name):
+            for l in ast.walk(fn_node):
+                if isinstance(l, (ast.For, ast.comprehension)) and isinstance(l.target, ast.Tuple) and l.target.elts and isinstance(l.target.elts[0], ast.Name) and l.target.elts[0].id == d.id:
+                    it = deref_at(fn_node, l.iter) if isinstance(l.iter, ast.Name) else l.iter
+                    if isinstance(it, ast.Call) and isinstance(it.func, ast.Attribute) and it.func.attr == 'items':
+                        return True
+        return False
+
+    opt = [_hyphenated(pf.node, c.args[0]) for c in adds]
+    ok = all(h is not None and _is_param_name(pf.node, h.func.value) for h in opt)
+    ctx.check(ok, 'C19.R6', f'{func_label(pf)}|cli-name-mapping', loc(pf, pf.node), 'CLI option name = parameter name with _ -> - (the string given to add_argument is built from <parameter name>.replace("_", "-"))', 'CLI option naming changed: the option string is not the parameter name with _ -> -')
     bb = corpus.module('config').classes['BaseBackendConfig'].methods['apply_known']
-    ctx.check(".name.replace('_', '-')" in src(bb.node, 2000), 'C19.R6', f'{func_label(bb)}|file-name-mapping', loc(bb, bb.node), 'file option name = parameter name with _ -> -', 'file option naming changed')
+    pops = [c for c in calls_in(bb.node) if isinstance(c.func, ast.Attribute) and c.func.attr == 'popset' and len(c.args) >= 2]
+    ctx.floor('C19.R6', 'popset calls of apply_known', len(pops))
+    okf = True
+    for c in pops:
+        h = _hyphenated(bb.node, c.args[1])
+        fld = kwarg(c, 'field')
+        okf = okf and h is not None and _is_param_name(bb.node, h.func.value) and fld is not None and _is_param_name(bb.node, fld)
+    ctx.check(okf, 'C19.R6', f'{func_label(bb)}|file-name-mapping', loc(bb, bb.node), 'file option name = field name with _ -> -, stored into that same field', 'file option naming changed')
     be = corpus.module('config').functions.get('backend_env_option')
     ok = be is not None and src(be.node.body[-1]) == "return f'{backend_type.short_name}_{option_name}'.upper()"
     ctx.check(ok, 'C19.R6', f'{func_label(be)}|env-name', loc(be, be.node), 'environment name = <SHORT_NAME>_<OPTION> upper-cased (used by the config class and the help text)', 'environment variable naming changed')
